@@ -695,18 +695,24 @@ func c14Session(sp c14Spec, c *mc.Ctx, root string) {
 	for _, k := range strings.Split(sp.E2E, ",") {
 		for v := 0; v < 2; v++ {
 			// the file holds value v for the key in half of the sequences, nothing in the other half
-			for _, inFile := range []bool{false, true} {
+			// ... and a third kind: the project has no configuration file at all when the session begins (the program
+			// writes one with the documented defaults; what an earlier line carried must not end up in it)
+			for fi, inFile := range []bool{false, true, false} {
+				noFile := fi == 2
+				if noFile && (k == "Dateformat" || k == "EndDate") {
+					continue // (these two need a companion value in the file, see below)
+				}
 				fileCase := c14Case{}
 				if inFile {
 					fileCase.File = map[string]int{k: v}
 				}
 				seq := []c14Case{
-					{File: fileCase.File, Line: map[string]int{k: 1 - v}},
-					{File: fileCase.File},
-					{File: fileCase.File, Line: map[string]int{k: v}},
-					{File: fileCase.File},
+					{File: fileCase.File, Line: map[string]int{k: 1 - v}, NoFile: noFile},
+					{File: fileCase.File, NoFile: noFile},
+					{File: fileCase.File, Line: map[string]int{k: v}, NoFile: noFile},
+					{File: fileCase.File, NoFile: noFile},
 				}
-				if e := c14Expected(seq[1], root); e["Dateformat"] == "DateENlong" || k == "Dateformat" || k == "EndDate" {
+				if e := c14Expected(seq[1], root); !noFile && (e["Dateformat"] == "DateENlong" || k == "Dateformat" || k == "EndDate") {
 					for i := range seq { // month-first format needs an explicit end date valid in both formats
 						if seq[i].File == nil {
 							seq[i].File = map[string]int{}
@@ -735,7 +741,7 @@ func c14Session(sp c14Spec, c *mc.Ctx, root string) {
 					proj.RunSession(session, root, args, fmt.Sprintf("[%d]", ri), pr)
 					c.Trace(1)
 					c.Transition(1)
-					h := mc.NewHasher().S("session").S(k).I(v).I(ri).I(b2i(inFile)).Sum()
+					h := mc.NewHasher().S("session").S(k).I(v).I(ri).I(b2i(inFile)).I(fi).Sum()
 					c.State(h)
 					if ri > 0 {
 						c.NonTrivial(h)
@@ -747,8 +753,8 @@ func c14Session(sp c14Spec, c *mc.Ctx, root string) {
 					for _, kk := range c14Keys() {
 						c.Eval(1)
 						if got[kk] != exp[kk] {
-							c.Violate(fmt.Sprintf("value-leaks-between-runs-of-a-session key=%s", kk), fmt.Sprintf("one session, same project, lines %v then this run (line %v, file has %s=%v): effective %s = %q, expected %q",
-								c14Args(seq[0]), c14Args(cs), k, inFile, kk, got[kk], exp[kk]), nil)
+							c.Violate(fmt.Sprintf("value-leaks-between-runs-of-a-session key=%s", kk), fmt.Sprintf("one session, same project (without a configuration file at the start: %v), lines %v then this run (line %v, file has %s=%v): effective %s = %q, expected %q",
+								noFile, c14Args(seq[0]), c14Args(cs), k, inFile, kk, got[kk], exp[kk]), nil)
 						}
 					}
 				}
